@@ -35,7 +35,7 @@ ENUM = {
 }
 POOL = 12
 CHUNK = 1500
-RULE = ("every pair of lists (lengths 0..2 each over the proper intervals of 0..3 quick / 0..4 thorough and over a box-and-interval "
+RULE = ("every pair of lists (lengths 0..2 each, n + m <= 3 quick, over the proper intervals of 0..3 quick / 0..4 thorough and over a box-and-interval "
         "alphabet and over an alphabet with zero-extent geometries (zero-length interval, TimeStamp with zero buffer, zero-duration "
         "box); n + m <= 5 with n, m <= 3 thorough; 3 x 3 sampled by tlc -simulate), order significant, run at three dyadic "
         "units; plus random lists "
@@ -144,7 +144,7 @@ def execute(case):
 
 
 def random_cases(rng, tier):
-    n = 1500 if tier == "quick" else 15000
+    n = 1000 if tier == "quick" else 15000
     for _ in range(n):
         ks = [rng.choice(KINDS) for _ in range(rng.randint(0, 4))]
         kt = [rng.choice(KINDS) for _ in range(rng.randint(0, 4))]
